@@ -10,7 +10,7 @@ import zlib
 import refcodec as rc
 import sched as SC
 
-EXTRA_PROPS = ['C12Bytes', 'C12Final']
+EXTRA_PROPS = ['C12Bytes', 'C12Final', 'C12Progress']
 
 RULE = ("1..4 user threads with programs over {queued write, forced write, graceful disconnect, "
         "immediate disconnect} (0..5 ops each, distinct packets) against the networking thread's own "
@@ -535,6 +535,110 @@ def run(ctx):
         if mo != g:
             ctx.disagree('send arguments of one packet vs Lean frameSends', line[:200], mo[:200], g[:200])
     ctx.extra['chunk_byte_pairs_compared'] = len(blines)
+    progress_tie(ctx, C, E)
+
+
+def progress_tie(ctx, C, E):
+    """Tie of Model/C12Progress.lean (driver `c12progress.enabled`): the model's enabled set after a schedule
+    prefix vs the list `en` the baton scheduler handed to `choose` at that point of a REAL run; `ntmoves` vs the
+    number of networking-thread steps executed; `queue` vs appended-minus-popped packets of the real event log;
+    and the drain bound 11n+2 vs a real solo run of the networking thread."""
+    rng = ctx.rng
+    reqs, expect, what = [], [], []
+
+    def req(capw, capr, progs, sched):
+        return 'c12progress.enabled capw=%d capr=%d progs=%s sched=%s' % (
+            capw, capr, prog_str(progs), ','.join(map(str, sched)) or '-')
+
+    def queue_at(log, k):
+        q = []
+        for e in log[:k]:
+            if e[1] == 'app':
+                q.append(e[2])
+            elif e[1] == 'pop':
+                q.remove(e[2])
+        return q
+
+    def fields(reply):
+        return dict(f.split('=', 1) for f in reply.split()[1:]) if reply.startswith('ok ') else {'reply': reply}
+    commas = lambda l: ','.join(map(str, l)) or '-'
+    # 1. enabled sets at sampled steps of random walks
+    for i in range(ctx.scale(40, 600)):
+        progs = gen_programs(rng)
+        rec = []
+        bias = rng.random()
+
+        def choose(en, n, rec=rec, bias=bias):
+            rec.append(sorted(en))
+            if 0 in en and rng.random() < bias * 0.7:
+                return 0
+            return rng.choice(en)
+        r = scenario(C, E, progs, choose, 'plain')
+        ran, log = r['ran'], r['log']
+        if len(rec) != len(ran) or len(log) != len(ran):
+            ctx.disagree('c12progress: scheduler bookkeeping (choices, steps, events) out of step', prog_str(progs),
+                         None, [len(rec), len(ran), len(log)])
+            continue
+        ks = set(rng.sample(range(len(ran)), min(len(ran), ctx.scale(8, 12)))) | {0}
+        for k in sorted(ks):
+            reqs.append(req(300, 50, progs, ran[:k]))
+            expect.append({'enabled': commas(rec[k]), 'ntmoves': str(ran[:k].count(0)), 'queue': commas(queue_at(log, k))})
+            what.append('random walk, step %d of %d' % (k, len(ran)))
+        if not r['stuck']:          # the run came to rest: nobody can move after the whole schedule
+            reqs.append(req(300, 50, progs, ran))
+            expect.append({'enabled': '-', 'ntmoves': str(ran.count(0)), 'queue': commas(r['queue'])})
+            what.append('random walk, at rest')
+    n_walk = len(reqs)
+    # 2. drains: thread 1 queues n packets, then the networking thread alone for 11n+2 actions (the bound of
+    # C12Progress.nt_drains printed by the model), then thread 2 disconnects: everything queued is on the wire
+    caps = [(300, 50), (1, 50), (1, 1), (2, 3)]
+    for capw, capr in (caps if (ctx.thorough or ctx.searching) else [caps[0], rng.choice(caps[1:])]):
+        for n in range(1, 6):
+            progs = [[('q', k) for k in range(1, n + 1)], [('d', 0)]]
+            B = 11 * n + 2
+            st = {'k': 0, 'start': None, 'at': None, 'blocked': False}
+
+            def choose(en, idx, st=st, B=B):
+                if 1 in en:
+                    return 1
+                if st['start'] is None:
+                    st['start'], st['en'] = idx, sorted(en)
+                if st['k'] < B:
+                    if 0 not in en:
+                        st['blocked'] = True
+                        return en[0]
+                    st['k'] += 1
+                    return 0
+                if st['at'] is None:
+                    st['at'] = idx
+                return 2 if 2 in en else 0
+            r = scenario(C, E, progs, choose, 'plain', capw=capw, capr=capr)
+            start, at = st['start'], st['at']
+            sent = [e[2] for e in r['log'][:at] if e[1] == 'snd' and e[3] == 1] if at is not None else None
+            case = {'capw': capw, 'capr': capr, 'n': n}
+            ctx.case(('c12progress-drain', capw, capr, n))
+            if st['blocked'] or start is None or at is None:
+                ctx.disagree('c12progress drain: the networking thread was not enabled throughout its solo run',
+                             case, 'enabled for %d actions' % B, r['ran'][:200])
+                continue
+            reqs.append(req(capw, capr, progs, r['ran'][:start]))
+            expect.append({'enabled': commas(st['en']), 'ntmoves': '0', 'queue': commas(range(1, n + 1)), 'drainbound': str(B)})
+            what.append('drain: %d queued, before the solo run' % n)
+            reqs.append(req(capw, capr, progs, r['ran'][:at]))
+            expect.append({'ntmoves': str(B), 'queue': commas(queue_at(r['log'], at))})
+            what.append('drain: after %d networking-thread actions' % B)
+            if sent != list(range(1, n + 1)):
+                ctx.disagree('c12progress drain: after drainbound=11n+2 networking-thread actions not every queued packet is on the wire',
+                             case, list(range(1, n + 1)), sent)
+    for line, mo, exp, w in zip(reqs, ctx.driver.ask(reqs), expect, what):
+        ctx.case(('c12progress', line))
+        got = fields(mo)
+        diff = {k: (got.get(k), v) for k, v in exp.items() if got.get(k) != v}
+        if diff:
+            ctx.disagree('c12progress.enabled vs the real run (%s): %s' % (w, ','.join(sorted(diff))), line[:600], mo,
+                         ' '.join('%s=%s' % kv for kv in sorted(exp.items())))
+    ctx.count('c12progress.enabled_sets', n_walk)
+    ctx.extra['c12progress_pairs'] = ctx.extra.get('c12progress_pairs', 0) + len(reqs)
 
 
 BYTE_SAMPLES = {}
